@@ -71,6 +71,8 @@ struct Exec {
     /// per worker: (r,p) -> worker request id
     wgot: Vec<BTreeMap<(u64, u64), String>>,
     plan: Vec<String>,
+    /// shape of the state file a load-state names (MasterHub.tla `Files`); empty for the other verbs
+    files: Vec<Option<Vec<String>>>,
     variant: Vec<u64>,
     cfg: Cfg,
     state_dir: std::path::PathBuf,
@@ -302,10 +304,13 @@ impl Exec {
                 (3, true) => RequestType::QueryMetrics(QueryMetricsOptions::default()),
                 _ => RequestType::QueryClusterById(cluster_name(rr, 1)),
             },
-            "load" => {
-                let parts = self.cfg_parts();
-                RequestType::LoadState(write_state_file(&self.state_dir, rr, parts))
-            }
+            "load" => match &self.files[r] {
+                Some(shape) => RequestType::LoadState(write_state_file_shape(&self.state_dir, rr, shape, self.variant[r])),
+                None => {
+                    let parts = self.cfg_parts();
+                    RequestType::LoadState(write_state_file(&self.state_dir, rr, parts))
+                }
+            },
             "stopHard" => RequestType::HardStop(HardStop {}),
             "stopSoft" => RequestType::SoftStop(SoftStop {}),
             other => panic!("unknown verb {other}"),
@@ -450,6 +455,10 @@ fn run_scenario(sc: &Value, cfg: &Cfg) -> Value {
         wgot: vec![BTreeMap::new(); nw],
         variant: (0..nr).map(|r| cfg.seed.wrapping_mul(31).wrapping_add(idx * 7 + r as u64)).collect(),
         plan: plan.clone(),
+        files: {
+            let f = seq_of(&sc["file"]);
+            (0..nr).map(|r| if plan[r] == "load" && r < f.len() { Some(strs(&f[r])) } else { None }).collect()
+        },
         cfg: cfg.clone(),
         state_dir,
         hub,
@@ -461,21 +470,51 @@ fn run_scenario(sc: &Value, cfg: &Cfg) -> Value {
     let events = seq_of(&sc["events"]);
     let mut stop: Option<Stop> = None;
     let mut at_event = 0usize;
+    let is_fast = |k: usize| k < events.len() && events[k]["fast"].as_bool().unwrap_or(false);
+    // A `fast` event follows the previous one without the hub going idle in between: the spec's hub has not
+    // yet handled the previous event when this one happens. Concretised deterministically: the hub's loop is
+    // parked (hubkit::Gate) before the first event of such a batch and released after the last, so that the
+    // hub finds the whole batch in ONE poll turn (e.g. a worker's answer and its hang-up in one epoll event).
+    // One batch in four is left to the natural race instead (both orders are behaviours of the spec).
+    let gated = x.variant.first().copied().unwrap_or(0) % 4 != 0;
+    let mut parked = false;
+    let mut batches = 0u64;
     for (i, e) in events.iter().enumerate() {
         at_event = i;
         let at = format!("before event {} ({})", i + 1, e["ev"].as_str().unwrap_or(""));
-        // a `fast` event follows the previous one immediately: the hub is NOT given the time to go idle
-        if !e["fast"].as_bool().unwrap_or(false) {
+        if !is_fast(i) {
             if let Err(s) = x.sync_and_check(&e["pre"], &at) {
                 stop = Some(s);
                 break;
             }
+            if is_fast(i + 1) && gated {
+                match x.hub.park() {
+                    Ok(()) => {
+                        parked = true;
+                        batches += 1;
+                    }
+                    Err(m) => {
+                        let fate = x.hub_fate_text();
+                        let class = if fate.contains("panicked") { "hub-panic" } else { "hub-unresponsive" };
+                        stop = Some(Stop::Mismatch(class.into(), json!({"at": at, "error": m, "hub": fate})));
+                        break;
+                    }
+                }
+            }
         }
         let next_obs = if i + 1 < events.len() { &events[i + 1]["pre"] } else { &sc["final"] };
-        if let Err(s) = x.run_event(e, next_obs) {
+        let res = x.run_event(e, next_obs);
+        if parked && !is_fast(i + 1) {
+            x.hub.unpark();
+            parked = false;
+        }
+        if let Err(s) = res {
             stop = Some(s);
             break;
         }
+    }
+    if parked {
+        x.hub.unpark();
     }
     if stop.is_none() {
         at_event = events.len();
@@ -545,7 +584,7 @@ fn run_scenario(sc: &Value, cfg: &Cfg) -> Value {
     };
     json!({"kind": "result", "idx": idx, "status": status, "class": class, "detail": detail, "at_event": at_event,
            "impl_finals": impl_finals, "impl_out": got, "texts": if status == "match" { Value::Null } else { json!(texts) },
-           "hang_checked": hang_checked, "elapsed_ms": t0.elapsed().as_millis() as u64})
+           "hang_checked": hang_checked, "gated_batches": batches, "elapsed_ms": t0.elapsed().as_millis() as u64})
 }
 
 /// Timing probe (measurement, not a verdict): two requests A (t0) and B (t0 + gap) to one silent
